@@ -1,6 +1,6 @@
 """registry: which units decide which property, and what each check does and does not decide"""
 
-UNITS = ['types', 'sym']
+UNITS = ['types', 'sym', 'lex']
 
 PROPS = {
     'C20': dict(
@@ -38,5 +38,40 @@ PROPS = {
         not_decided=['that every construct is wrapped in enter/exit (stmt_to_asg_stmt: closures)', 'gate/def parameter binding (bind_*)',
                      'analysis order initializer-before-binding (SEMA unit, when available)'],
         explanation='Verus; see C19.',
+    ),
+    'C14': dict(
+        units=['lex'],
+        decided=[
+            'advance_token: Eof iff input exhausted; otherwise consumes >= 1 char, len == UTF-8 size of the consumed chars (>= 1, char boundary), suffix_start <= len',
+            'every lexer loop decreases the remaining input; no arithmetic overflow; every debug_assert holds',
+            'chain lemma: the token table has strictly increasing start offsets ending at the input length; EOF only last; every slice index in range',
+            'LexedStr accessors: every assert / index / subtraction safe under the table invariant',
+        ],
+        not_decided=['"lexing the same text twice gives the same stream": follows from purity (safe Rust, no interior mutability: mechanical scan), not proved',
+                     'char-boundary precondition of `&self.text[lo..hi]` in range_text (trusted; offsets are sums of UTF-8 sizes of whole chars by the contracts above)',
+                     'the 8 Cursor primitives over std::str::Chars (trusted model rest/tok/prevc)'],
+        explanation='Verus over the real lexer and token table; all inputs up to 2^31-1 bytes.',
+        assumptions=['source text <= 2^31 - 1 bytes (u32 offsets, i32 newline counter)'],
+    ),
+    'C15': dict(
+        units=['lex'],
+        decided=[
+            'inner_extend_token: every punctuation / comment / whitespace / pragma / annotation / literal-class lexer kind maps to the parser kind of the same meaning; `_` <-> UNDERSCORE',
+            'no spurious lexical error on well-formed comment / whitespace / ident / pragma / annotation / version tokens',
+            'scanner kind postconditions: line comment, block comment, whitespace, identifier classes',
+        ],
+        not_decided=['keyword / type-name table beyond "a keyword kind is a token kind" (str matching)', 'maximal-munch extents of numbers and identifiers (stage B contracts)',
+                     'lifting per-token facts to arbitrary lexeme sequences'],
+        explanation='Verus; per-token classification contracts.',
+    ),
+    'C11': dict(
+        units=['lex'],
+        decided=[
+            'every malformedness flag of the lexer (unterminated string/bitstring/block comment, empty int, empty exponent, bad version, invalid identifier) yields a non-empty message',
+            'Converter::push records it under the index of that very token; nothing is recorded otherwise',
+        ],
+        not_decided=['that the lexer sets each flag exactly when the lexeme is malformed (stage B contracts on number/strings)',
+                     'parse_text_check_lex / analyze_source gates (SEMA unit)', 'recursive have_syntax_errors over included files'],
+        explanation='Verus.',
     ),
 }
